@@ -96,6 +96,10 @@ type Server struct {
 	// StepAuth (default false = the behaviour described above): every client line of an AUTH exchange (the AUTH
 	// command and each continuation line) consumes one decision of the script, see server_stepauth.go
 	StepAuth bool
+	// OnWriteStall (default nil = no effect): called when the DATA position carries a decision of kind "stallwrite" /
+	// "failwrite" (Code = number of further bytes the client may write), before the 354 is sent; the harness makes the
+	// client's connection stall or fail its writes from there (Conn.LimitWrites) -- "the server stops reading"
+	OnWriteStall func(n int, fail bool)
 
 	mu      sync.Mutex
 	Trace   []Event
@@ -569,6 +573,9 @@ func (s *Server) Serve(conn net.Conn) {
 			}
 			if sess.rejected > 0 {
 				illegal("DATA although a recipient of this message was rejected")
+			}
+			if (d.Kind == "stallwrite" || d.Kind == "failwrite") && s.OnWriteStall != nil {
+				s.OnWriteStall(d.Code, d.Kind == "failwrite") // add-only hook; the reply is the normal 354
 			}
 			if !send(&e, verb, d) {
 				return
